@@ -405,11 +405,11 @@ def catalogue(tier, seed):
         kw = {'unit': 'deg'} if deg else {}
         for c in conts:
             add('SE3.Eul', c + sfx, a3(deg), lambda v, kw=kw, c=c: (lambda: sm.SE3.Eul(CONT[c](v), **kw)))
+        for c in conts:
+            add('SE3.RPY', c + sfx, a3(deg), lambda v, kw=kw, c=c: (lambda: sm.SE3.RPY(CONT[c](v), **kw)))
         orders = ['zyx', 'xyz', 'yxz'] + ([] if tier == 'quick' else ['vehicle', 'arm', 'camera'])
         for order in orders:
-            for c in (conts if order == 'zyx' else ['list', 'array']):
-                if order == 'zyx':
-                    add('SE3.RPY', c + sfx, a3(deg), lambda v, kw=kw, c=c: (lambda: sm.SE3.RPY(CONT[c](v), **kw)))
+            for c in (['list'] if (deg or order not in ('xyz', 'yxz')) else ['list', 'array']):
                 add('SE3.RPY', '%s,order=%s%s' % (c, order, sfx), a3(deg),
                     lambda v, kw=kw, c=c, order=order: (lambda: sm.SE3.RPY(CONT[c](v), order=order, **kw)))
     add('SE3.Eul', 'rows2:array', rows, lambda v: (lambda: sm.SE3.Eul(np.array([list(v[:3]), list(v[3:])]))), subsets=rows_sub)
@@ -517,21 +517,21 @@ def catalogue(tier, seed):
     add('SE3.inv', 'lib:SE3(x,y,z)', [A.vec3('t')], lambda v: (lambda X=prep(sm.SE3, v[0], v[1], v[2]): X.inv()))
 
     # ---- simplify (all four pose classes); sympy.simplify is slow, so a short point list
-    sA = [A.ang('th', 'a3')]
-    short3 = Group('t', 'len', 3, [l for l in A.v3s if not l[0].endswith('*1e-6')][:4])
+    sang = lambda: Group('th', 'ang', 1, [(n, (v,)) for n, v in A.a3 if n in ('0', 'pi/2', '1e-6') or n.startswith('g')])
+    short3 = Group('t', 'len', 3, [l for l in A.v3s if l[0] == 'ex' or l[0].endswith('*1e0')][:2 if tier == 'quick' else 4])
     short2 = Group('t', 'len', 2, [(n, v[:2]) for n, v in short3.letters])
     mk = {
-        'SO2': ([A.ang('th', 'a3')], lambda v: prep(sm.SO2, h_rot2(v[0]), check=False), None),
-        'SE2': ([A.ang('th', 'a3'), short2], lambda v: prep(sm.SE2, h_T2(*v), check=False), ['111', '100', '011']),
-        'SO3': ([A.ang('th', 'a3')], lambda v: prep(sm.SO3, h_Rx(v[0]), check=False), None),
-        'SE3': ([A.ang('th', 'a3'), short3], lambda v: prep(sm.SE3, h_TRx(*v), check=False), mixes4),
+        'SO2': ([sang()], lambda v: prep(sm.SO2, h_rot2(v[0]), check=False), None),
+        'SE2': ([sang(), short2], lambda v: prep(sm.SE2, h_T2(*v), check=False), ['111', '100', '011']),
+        'SO3': ([sang()], lambda v: prep(sm.SO3, h_Rx(v[0]), check=False), None),
+        'SE3': ([sang(), short3], lambda v: prep(sm.SE3, h_TRx(*v), check=False), mixes4),
     }
     for cname, (grps, ctor, subs) in mk.items():
-        add(cname + '.simplify', 'X', grps, lambda v, ctor=ctor: (lambda X=ctor(v): X.simplify()), subsets=subs, weight=6)
+        add(cname + '.simplify', 'X', grps, lambda v, ctor=ctor: (lambda X=ctor(v): X.simplify()), subsets=subs, weight=40)
         add(cname + '.simplify', 'X*X', grps, lambda v, ctor=ctor: (lambda X=prep(lambda: ctor(v) * ctor(v)): X.simplify()),
-            subsets=subs, weight=20)
-    add('SO3.simplify', 'X:hRzRy', [A.ang('a', 'a3'), A.ang('b', 'a3')],
-        lambda v: (lambda X=prep(sm.SO3, h_RzRy(*v), check=False): X.simplify()), weight=8)
+            subsets=subs, weight=150)
+    add('SO3.simplify', 'X:hRzRy', [sang(), sang()],
+        lambda v: (lambda X=prep(sm.SO3, h_RzRy(*v), check=False): X.simplify()), weight=80)
 
     # ---- pose operators on symbolic objects
     ops = {
@@ -656,23 +656,28 @@ def exact_value(e):
     return None
 
 
-def evaluate(e, mapping):
-    """30-digit value of entry e after substitution, as a float; (None, why) if it is not a real number"""
-    if isinstance(e, (int, float, np.integer, np.floating)) and not isinstance(e, (bool, np.bool_)):
-        return float(e), None
-    if not isinstance(e, sympy.Basic):
-        return None, 'entry of type %s' % type(e).__name__
-    v = sympy.N(e.subs(mapping), 30)
+def _as_float(v):
     if getattr(v, 'free_symbols', None):
         return None, 'free symbols %s left after substitution' % sorted(str(s) for s in v.free_symbols)
-    if not v.is_Number:
-        if v.is_number and v.is_real:
-            return float(v), None
+    if not v.is_Number and not (v.is_number and v.is_real):
         return None, 'evaluates to %s' % str(v)[:60]
     x = float(v)
     if not math.isfinite(x):
         return None, 'evaluates to %r' % x
     return x, None
+
+
+def evaluate(e, mapping, slow=False):
+    """30-digit value of entry e after substitution, as a float; (None, why) if it is not a real number.
+    Fast path: N(e, 30, subs=mapping) (substitution inside evalf); slow path, used to confirm every
+    disagreement before it is reported: e.subs(mapping) then N(., 30)."""
+    if isinstance(e, (int, float, np.integer, np.floating)) and not isinstance(e, (bool, np.bool_)):
+        return float(e), None
+    if not isinstance(e, sympy.Basic):
+        return None, 'entry of type %s' % type(e).__name__
+    if slow:
+        return _as_float(sympy.N(e.subs(mapping), 30))
+    return _as_float(sympy.N(e, 30, subs=mapping))
 
 
 def default_scale(vals, kinds, num):
@@ -811,6 +816,8 @@ def run_unit(ctx, form, k, n):
             bad = None
             for i, (e, x) in enumerate(zip(sflat, nflat)):
                 y, why = evaluate(e, syms)
+                if y is None or abs(y - x) > tol:
+                    y, why = evaluate(e, syms, slow=True)       # confirm with plain subs() + N() before reporting
                 if y is None:
                     bad = (i, 'entry %d (%s): %s; numeric value %r' % (i, str(e)[:80], why, x))
                     break
